@@ -225,9 +225,60 @@ def run(ctx):
             else:
                 ctx.traces_validated += 1
         ctx.ties.append({"name": "malloc-llo", "cases": len(exp), "disagreements": nb})
+    run_cross_thread(ctx, exe)
+
+
+def xdesc(c):
+    return "thread A: %d x %s; thread B frees every other block%s; thread A: %d x malloc(%d)" % (
+        c[2], ("aligned_malloc(%d,%d)" % (c[0], c[1])) if c[1] else "malloc(%d)" % c[0], " (B stays alive)" if c[4] else " and exits", c[2], c[3])
+
+
+def xfree_oracle(c, toks):
+    if not toks or toks[0].startswith("CRASH") or toks[-1] == "HANG":
+        return ("malloc-xfree-crash", xdesc(c) + ": the allocator crashed (" + " ".join(toks)[-40:] + ")")
+    d = {toks[i]: int(toks[i + 1]) for i in range(0, len(toks) - 1, 2)}
+    for k, msg in (("OVERLAP", "a new block overlaps a live block"), ("MSIZE", "scalable_msize below the requested size"),
+                   ("MISALIGNED", "misaligned block"), ("CORRUPT", "a live block lost its contents")):
+        if d.get(k):
+            return ("malloc-xfree-" + k.lower(), "%s: %s (%d)" % (xdesc(c), msg, d[k]))
+    return None
+
+
+def run_cross_thread(ctx, exe):
+    rng = ctx.rng
+    cases = []
+    fit = [1792, 2688, 4032, 5376, 8128]
+    for f in fit:
+        for al in (0, 128, 256, 512, 1024, 2048, 4096):
+            for size in {f - al - 64 if f - al - 64 > 1024 else 1100, 1100, 1500, 3000}:
+                if al and not (size + al <= 8128):
+                    continue
+                if ctx.quick() and rng.random() < 0.5:
+                    continue
+                cases.append([size, al, rng.choice([12, 24, 96]), rng.choice(fit + [f - 100]), rng.randrange(2)])
+    for _ in range(ctx.scale(40, 1500)):
+        cases.append([rng.choice([8, 24, 100, 512, 1024, 1500, 2600, 5000, 9000]), rng.choice([0, 16, 64, 128, 1024, 4096]), rng.choice([8, 40, 200]),
+                      rng.choice([8, 24, 100, 1792, 2600, 8128, 9000]), rng.randrange(2)])
+    ctx.rules.append("cross-thread: thread A allocates N (aligned) blocks of every fitting class x alignment 128..4096, thread B frees every other one (and exits or stays), "
+                     "A allocates again; shadow-map / msize / alignment / pattern oracle")
+    oracle_tie(ctx, "malloc-xfree", exe, ["xfree"], cases, xfree_oracle, describe=xdesc, bucket=lambda c: "xfree align=%d" % c[1], timeout=900)
+    bad = 0
+    nmt = ctx.scale(6, 80)
+    for r in range(nmt):
+        rc, lines, err = ctx.run_driver(exe, ["mt", 2 + r % 4, ctx.seed * 1000 + r, 3000], timeout=300)
+        ctx.count(("malloc-mt", r), True, "malloc-mt")
+        if rc != 0 or not lines or lines[-1].split()[1::2] != ["0", "0", "0"]:
+            bad += 1
+            ctx.add(Finding("violation", "malloc-mt", "cross-thread malloc/free run (threads=%d seed=%d): %s rc=%s" % (2 + r % 4, ctx.seed * 1000 + r, (lines or ["no output"])[-1], rc),
+                            {"tie": "malloc-mt", "args": ["mt", 2 + r % 4, ctx.seed * 1000 + r, 3000]}))
+            break
+    ctx.ties.append({"name": "malloc-mt (oracle only)", "cases": nmt, "disagreements": bad})
 
 
 def replay(ctx, rep):
+    if rep.get("tie") == "malloc-xfree":
+        oracle_tie(ctx, "malloc-xfree", build(ctx), ["xfree"], [rep["case"]], xfree_oracle, describe=xdesc)
+        return
     exe = build(ctx)
     if rep.get("tie") == "malloc-seq":
         rc, lines, err = ctx.run_driver(exe, ["seq"], [rep["case"]])
